@@ -676,6 +676,28 @@ class Interp:
     def _single(self, t: Term, c: Term | None):
         if c is not None and self.is_c(t, c):
             return Single("SELF")
+        # one element picked out of a collection: min(X, key=...), X[i], next(iter(X))
+        if is_call_to(t, "min", "max") and len(t[2]) == 1 and dict(t[3]).get("key") is not None:
+            base = self.coll(t[2][0], c)
+            if isinstance(base, Coll):
+                return replace(base, restricted=True, why_restricted="single element chosen by " + t[1][1] + "(key=...)")
+        if t[0] == "index" and t[2][0] != "slice":
+            base = self.coll(t[1], c)
+            if isinstance(base, Coll) and not base.unrecognised:
+                return replace(base, restricted=True, why_restricted="single element")
+        if is_call_to(t, "next") and t[2]:
+            base = self.coll(t[2][0], c)
+            if isinstance(base, Coll) and not base.unrecognised:
+                return replace(base, restricted=True, why_restricted="first element")
+        if c is not None and t[0] == "bin" and t[1] in ("-", "^"):
+            if self.is_c(t[3], c):
+                inner = self._single(t[2], c)
+                if isinstance(inner, Coll) and not inner.unrecognised:
+                    return Compl(inner, "x-c" if t[1] == "-" else "xor")
+            if self.is_c(t[2], c):
+                inner = self._single(t[3], c)
+                if isinstance(inner, Coll) and not inner.unrecognised:
+                    return Compl(inner, "c-x" if t[1] == "-" else "xor")
         return Coll(ALL_CLASSES, restricted=True, why_restricted="single coalition " + show(t)[:40], unrecognised=True)
 
     def _col(self, col: str, cc):
